@@ -4,11 +4,11 @@ package main
 // Every case runs in its own worker subprocess (address-space limit 4 GiB): monitor M9.
 
 import (
-	"time"
 	"fmt"
 	"strconv"
 	"strings"
 	"syscall"
+	"time"
 )
 
 type limitCase struct {
@@ -20,6 +20,7 @@ type limitCase struct {
 	// the output must start with this marker and, when want==ok or the run is ok, end with okTail
 	marker string
 	okTail string
+	mk     func() string // builds the program text when the case runs (multi-megabyte programs)
 }
 
 func recShapes() []struct{ name, tmpl string } {
@@ -178,6 +179,39 @@ func c20Cases_() []limitCase {
 			out = append(out, limitCase{name: fmt.Sprintf("json-nesting/%s/%d", kind, d.n), prog: "BEGIN { print 'marker' } BEGINFILE { print 'got' } END { print 'done' }", input: []byte(sb.String()), want: d.band, marker: "marker\n", okTail: tail})
 		}
 	}
+	// program texts of several megabytes: nesting and line ends without bound in the source text itself
+	rep := strings.Repeat
+	for _, hp := range []struct {
+		name, band, tail string
+		mk               func() string
+	}{
+		{"3000000-parentheses", "either", "1\n", func() string {
+			return "BEGIN { print 'marker'; print " + rep("(", 3000000) + "1" + rep(")", 3000000) + " }"
+		}},
+		{"150000-parentheses", "ok", "1\n", func() string {
+			return "BEGIN { print 'marker'; print " + rep("(", 150000) + "1" + rep(")", 150000) + " }"
+		}},
+		{"3000000-prefix-not", "either", "", func() string { return "BEGIN { print 'marker'; print " + rep("!", 3000000) + "1 }" }},
+		{"3000000-array-brackets", "either", "", func() string { return "BEGIN { print 'marker'; x = " + rep("[", 3000000) + rep("]", 3000000) + " }" }},
+		{"2000000-unclosed-brackets", "error", "", func() string { return "BEGIN { print 'marker'; x = " + rep("[", 2000000) }},
+		{"4000000-unclosed-parentheses", "error", "", func() string { return "BEGIN { print 'marker'; print " + rep("(", 4000000) }},
+		{"2000000-chained-assignments", "either", "", func() string { return "BEGIN { print 'marker'; " + rep("a = ", 2000000) + "1 }" }},
+		{"600000-nested-rule-blocks", "either", "", func() string { return "BEGIN " + rep("{", 600000) + " print 1 " + rep("}", 600000) }},
+		{"1000000-nested-ifs", "either", "", func() string { return "BEGIN { print 'marker'; " + rep("if (1) ", 1000000) + "print 1 }" }},
+		{"3000000-nested-blocks", "either", "", func() string { return "BEGIN { print 'marker'; " + rep("{", 3000000) + rep("}", 3000000) + " }" }},
+		{"1000000-nested-match", "either", "", func() string {
+			return "BEGIN { print 'marker'; print " + rep("match (1) { x => ", 1000000) + "1" + rep(" }", 1000000) + " }"
+		}},
+		{"12000000-line-ends", "ok", "1\n", func() string { return "BEGIN { print 'marker'" + rep("\n", 12000000) + " print 1 }" }},
+		{"3000000-comment-lines", "ok", "1\n", func() string { return "BEGIN { print 'marker'" + rep("# c\n", 3000000) + " print 1 }" }},
+		{"1000000-statements", "ok", "done\n", func() string { return "BEGIN { print 'marker'\n" + rep("x = x + 1\n", 1000000) + "print 'done' }" }},
+	} {
+		marker := "marker\n"
+		if hp.band != "ok" {
+			marker = "" // a program refused by the parser prints nothing at all
+		}
+		out = append(out, limitCase{name: "huge-program/" + hp.name, want: hp.band, marker: marker, okTail: hp.tail, mk: hp.mk})
+	}
 	// unterminated deep input (never closed)
 	out = append(out, limitCase{name: "json-nesting/unclosed/1000000", prog: "BEGIN { print 'marker' } { print 'got' }", input: []byte(strings.Repeat("[", 1000000)), want: "error", marker: "marker\n"})
 	return out
@@ -201,6 +235,9 @@ var c20List = c20Cases_()
 
 func c20Run(c *Case) {
 	lc := c20List[c.Idx]
+	if lc.mk != nil {
+		lc.prog = lc.mk()
+	}
 	var files []InFile
 	if len(lc.input) > 0 {
 		files = []InFile{{Name: "in.json", Data: lc.input}}
@@ -216,10 +253,13 @@ func c20Run(c *Case) {
 	c.NonTrivial(lc.name)
 	rp := map[string]any{"case": lc.name, "program": clip(lc.prog, 2000), "class": lib.Class, "msg": lib.Msg, "stdout": clip(string(lib.Stdout), 300), "peak_rss_kb": ru.Maxrss}
 	out := string(lib.Stdout)
-	isErr := lib.Class == "runtime" || lib.Class == "json"
+	isErr := lib.Class == "runtime" || lib.Class == "json" || (lc.mk != nil && lib.Class == "syntax")
 	switch {
 	case lib.Class != "ok" && !isErr:
 		c.Violation(fmt.Sprintf("%s: ended as %s (%s %s)", lc.name, lib.Class, lib.Msg, lib.PanicVal), nil, rp)
+		return
+	case lc.mk != nil && lib.Class == "ok" && !strings.HasPrefix(out, "marker\n"):
+		c.Violation(fmt.Sprintf("%s: the program ran but its first output is missing: %q", lc.name, clip(out, 60)), nil, rp)
 		return
 	case !strings.HasPrefix(out, lc.marker):
 		c.Violation(fmt.Sprintf("%s: output written before the limit was reached is lost: %q", lc.name, clip(out, 60)), nil, rp)
@@ -267,7 +307,7 @@ func c20Run(c *Case) {
 func init() {
 	register(&Prop{
 		ID: "C20", Level: "exploration",
-		Rule:             "enumerated boundary programs, each run in its own subprocess under a 4 GiB address-space limit (process death, also by running out of memory, is a violation): recursion of 6 shapes (direct, mutual-2, mutual-3, through match expression body, through match block body, through an argument) x 8 per-level expression nestings (none, 100 / 3000 prefix operators, 100 parenthesised additions, 3000 array literals, chains of 400 / 3000 / 300 binary operators) x depth targets {1000, 3000, unbounded}, each shape also entered through one / two wrapper functions and from inside match bodies (so that the frame crossing the limit is a function frame in some and a match frame in others), plus recursion from a rule pattern and with two recursive calls; ordinary long histories at shallow depth (70000-150000 loop rounds / calls / input values with signals, 300 x 900-deep recursion) must not be refused; array stores and reads at indices 999999 / 1000000 / 1048576 / 1048577 / 1999999 / 2000000 / 1e9 / 1e18 / 1e23 / -1 / -1e18 / 0.5 on empty and non-empty arrays, through $-paths, through freshly created nested paths, repeated in a loop, and beyond the limit on an array that is already a million long (the limit is on the index, not on the distance); printf widths 4096 / +-65535 / +-65536 / 065536 / +-65537 / 1e5 / +-1e10 / 30 digits, and widths at and beyond 2^31, 2^32, 2^63, 2^64, 2^128 (+ small offsets, which wrap to small numbers in fixed-width arithmetic) for %s %f %v; JSON input nested 1000 / 5000 / 9999 / 10001 / 20000 / 1000000 deep in arrays, objects and mixtures followed by a second value, and a million unclosed brackets. The recursion and long-history programs also run through the command-line binary (no signal, no Go trace, same outcome class as the library). Oracle: bands, not today's constants (1000 frames, index <= 1e6, width <= 65536, nesting <= 5000 must work; unbounded recursion, index >= 2e6, width > 65536, nesting >= 20000 must be an ordinary runtime/JSON error; in between either), the marker printed before the step must be kept. Evidence: peak RSS per family and the frame depth at refusal (hook). Every case is non-trivial.",
+		Rule:             "enumerated boundary programs, each run in its own subprocess under a 4 GiB address-space limit (process death, also by running out of memory, is a violation): recursion of 6 shapes (direct, mutual-2, mutual-3, through match expression body, through match block body, through an argument) x 8 per-level expression nestings (none, 100 / 3000 prefix operators, 100 parenthesised additions, 3000 array literals, chains of 400 / 3000 / 300 binary operators) x depth targets {1000, 3000, unbounded}, each shape also entered through one / two wrapper functions and from inside match bodies (so that the frame crossing the limit is a function frame in some and a match frame in others), plus recursion from a rule pattern and with two recursive calls; ordinary long histories at shallow depth (70000-150000 loop rounds / calls / input values with signals, 300 x 900-deep recursion) must not be refused; array stores and reads at indices 999999 / 1000000 / 1048576 / 1048577 / 1999999 / 2000000 / 1e9 / 1e18 / 1e23 / -1 / -1e18 / 0.5 on empty and non-empty arrays, through $-paths, through freshly created nested paths, repeated in a loop, and beyond the limit on an array that is already a million long (the limit is on the index, not on the distance); printf widths 4096 / +-65535 / +-65536 / 065536 / +-65537 / 1e5 / +-1e10 / 30 digits, and widths at and beyond 2^31, 2^32, 2^63, 2^64, 2^128 (+ small offsets, which wrap to small numbers in fixed-width arithmetic) for %s %f %v; program texts of 1-12 MB (3 000 000 nested parentheses / brackets / prefix operators / blocks, 1 000 000 nested ifs / matches, 12 000 000 consecutive line ends, 3 000 000 comment lines, 1 000 000 statements): refused with a syntax error or run, never a crash; JSON input nested 1000 / 5000 / 9999 / 10001 / 20000 / 1000000 deep in arrays, objects and mixtures followed by a second value, and a million unclosed brackets. The recursion and long-history programs also run through the command-line binary (no signal, no Go trace, same outcome class as the library). Oracle: bands, not today's constants (1000 frames, index <= 1e6, width <= 65536, nesting <= 5000 must work; unbounded recursion, index >= 2e6, width > 65536, nesting >= 20000 must be an ordinary runtime/JSON error; in between either), the marker printed before the step must be kept. Evidence: peak RSS per family and the frame depth at refusal (hook). Every case is non-trivial.",
 		NumCases:         func(tier string) int { return len(c20List) },
 		Run:              c20Run,
 		MinConclusive:    func(tier string) int { return len(c20List) * 9 / 10 },
